@@ -127,12 +127,12 @@ class Logger:
             env = {"k": z, "lo": z, "up": z, "steps": 0, "hid": z, "draws": len(self.counting.games), "mask": [0] * na, "obs": [[0, 0]] * na,
                    "gap": [0, 0], "done": 0, "deg": 0, "pure": 1}
             return {"op": op, "a": int(a), "exc": exc or "UnloggableOutput", "solver": "", "ret_obs": [], "ret_gap": [0, 0], "ret_done": -1,
-                    "ret_info": -1, "undo_bits": undo_bits, "ranks": ranks or [], "lin_mask": [], "lin_obs": [], "env": env}
+                    "ret_info": -1, "undo_bits": undo_bits, "ranks": ranks or [], "lin_mask": [], "lin_obs": [], "lin_same": 1, "env": env}
 
     def _event(self, op, a=0, ret=None, exc="", undo_bits=-1, ranks=None):
         hidden = self.env.full_game.get_values()
         ev = {"op": op, "a": int(a), "exc": exc, "solver": "", "ret_obs": [], "ret_gap": [0, 0], "ret_done": -1, "ret_info": -1,
-              "undo_bits": undo_bits, "ranks": ranks or [], "lin_mask": [], "lin_obs": []}
+              "undo_bits": undo_bits, "ranks": ranks or [], "lin_mask": [], "lin_obs": [], "lin_same": 1}
         ev["env"] = self.env_state()
         if ret is not None and not exc:
             if op in ("reset", "lin_reset"):
@@ -149,6 +149,7 @@ class Logger:
             if op in ("lin_step", "lin_reset"):
                 ev["lin_ret_obs"] = self.lin_obs_iv(obs, hidden)
         if self.lin is not None:
+            ev["lin_same"] = int(bool(self.lin.done) == bool(self.env.done) and float(self.lin.reward) == float(self.env.reward))
             ev["lin_mask"] = [int(b) for b in self.lin.action_masks()]
             ev["lin_obs"] = self.lin_obs_iv(ret[0] if (ret is not None and not exc and op in ("lin_step", "lin_reset")) else self.lin.state, hidden)
         return ev
@@ -174,7 +175,7 @@ def drive(lg: Logger, rng, plan, solver=None, solver_name=""):
     for item in plan:
         op = item[0]
         if op == "reset":
-            ret, exc = call(env.reset)
+            ret, exc = call(env.reset) if (rng is None or rng.random() < 0.7) else call(lambda: env.reset(seed=rng.randrange(1000)))
             chosen = []
             events.append(lg.event("reset", 0, ret, exc))
         elif op == "step":
@@ -184,7 +185,7 @@ def drive(lg: Logger, rng, plan, solver=None, solver_name=""):
             a = item[1] if len(item) > 1 and item[1] is not None else rng.choice(valid)
             if a not in valid:
                 continue
-            ret, exc = call(env.step, a)
+            ret, exc = call(env.step, np.int64(a) if rng is not None and rng.random() < 0.3 else a)     # numpy integers are actions too
             if not exc:
                 chosen.append(a)
             events.append(lg.event("step", a, ret, exc))
